@@ -355,3 +355,49 @@ def model_value(model, proxy):
         from fractions import Fraction
         out = np.array([float(Fraction(x)) if isinstance(x, str) else float(x) for x in out.reshape(-1)]).reshape(proxy.shape)
     return np.asarray(out.tolist()).astype(proxy.dtype).reshape(proxy.shape)
+
+
+class SymInt:
+    """symbolic Python int (z3 Int term): comparisons give SymBool, bool() forks on != 0"""
+
+    def __init__(self, term):
+        self.term = term
+
+    def _t(self, o):
+        return o.term if isinstance(o, SymInt) else (z3.IntVal(int(o)) if isinstance(o, (int, np.integer)) and not isinstance(o, bool) else None)
+
+    def __bool__(self):
+        return decide(self.term != 0)
+
+    def __index__(self):
+        raise Unsupported("symbolic int used as an index")
+
+    def __repr__(self):
+        return "<symbolic int>"
+
+    def __format__(self, spec):
+        return "<symbolic int>"
+
+    __hash__ = None
+
+
+def _symint_ops():
+    import operator as op
+    for name, f in (("lt", op.lt), ("le", op.le), ("gt", op.gt), ("ge", op.ge), ("eq", op.eq), ("ne", op.ne)):
+        def cmp_(self, o, f=f):
+            t = self._t(o)
+            return NotImplemented if t is None else SymBool(f(self.term, t))
+        setattr(SymInt, f"__{name}__", cmp_)
+    for name, f in (("add", op.add), ("sub", op.sub), ("mul", op.mul)):
+        def ar(self, o, f=f):
+            t = self._t(o)
+            return NotImplemented if t is None else SymInt(f(self.term, t))
+
+        def rar(self, o, f=f):
+            t = self._t(o)
+            return NotImplemented if t is None else SymInt(f(t, self.term))
+        setattr(SymInt, f"__{name}__", ar)
+        setattr(SymInt, f"__r{name}__", rar)
+
+
+_symint_ops()
